@@ -28,7 +28,7 @@ TABLE: dict[str, dict[str, str]] = {
     "C05": dict(cat="other", tech="def-use/typestate rules on ExplorerScriptMacro.build (fresh labels, return->jump-to-end, parameter substitution), call binding, import resolution order, dependency-order rule; compile() interpreted on multi-file macro projects (virtual files) against hand-inlined programs by bisimulation; meaningless projects rejected",
                 text="Decides the expansion template of build(), the binding of arguments to macro variables, the import search order and the recursion guard, and that the macro order is produced by a topological sort of the dependency graph. Behaviour of expanded ops inherits C01's limits.",
                 note="igraph.Graph.topological_sorting is trusted to return a topological order.", ref="§4 C05"),
-    "C06": dict(cat="other", tech="raise-set inference over the resolved call graph vs. the fallback handler; marker writer/reader agreement; backup-before-mutation dominance; round trip with every stage interpreted: convert() returns for every program of the families, fallback text reproduces the ops one for one; resolver totality (end-of-table guard), handler-bound names, fresh collectors of the fallback reader",
+    "C06": dict(cat="other", tech="raise-set inference over the resolved call graph vs. the fallback handler; marker writer/reader agreement; backup-before-mutation dominance; round trip with every stage interpreted: convert() returns for every program of the families, fallback text reproduces the ops one for one, text without the marker is accepted by the ExplorerScript compiler; resolver totality (end-of-table guard), handler-bound names, fresh collectors of the fallback reader",
                 text="Decides that no exception class raised under convert()'s try escapes its handler, that the fallback prefix is recognised by parse_exps_meta_attributes with an accepted value, and that the raw ops are backed up before any pass touches them. Exactness of the fallback text is C07.",
                 note="Library callee summaries (open/int/next/list.index ...) are hand-written.", ref="§4 C06"),
     "C07": dict(cat="other", tech="grammar-parsed SsbScript print templates vs. the listener's reading (writer/reader agreement), jump-argument position, label binding, order preservation; SsbScript decompiler and compiler interpreted on hand-made routine sets and compiled families (op for op)",
@@ -40,10 +40,10 @@ TABLE: dict[str, dict[str, str]] = {
     "C09": dict(cat="other", tech="who-may-write rule on the line counter, register-before-write dominance, coverage of statement writers, offset-aliasing rule; round trip with every stage interpreted: each entry of the decompiler's map points at the first character of its op's statement and recompilation agrees on the line",
                 text="Decides that the line counter is advanced by exactly the newlines written, that source_map_add_opcode dominates the statement's write with nothing written in between, that every statement writer registers, and that synthetic vertices do not overwrite real entries.",
                 note="CPython ast.", ref="§4 C09"),
-    "C10": dict(cat="other", tech="raise-set inference over the resolved call graph vs. the documented exception classes; presence table of documented rejections; stack pairing; parse-listener guard; whole compiler interpreted on the meaningless and degenerate program shapes of the specification (rejected with a documented error, nothing else escapes); counter-indexed loop conditions are bounded",
+    "C10": dict(cat="other", tech="raise-set inference over the resolved call graph vs. the documented exception classes; presence table of documented rejections; stack pairing; parse-listener guard; whole compiler interpreted on the meaningless and degenerate program shapes of the specification (rejected with a documented error, nothing else escapes), also as second program on a used compiler object; counter-indexed loop conditions are bounded",
                 text="Decides that no explicitly raised exception class other than ParseError/SsbCompilerError/ValueError can leave compile(), that every documented rejection has its raise site, that loop/case stacks are paired, and two named implicit-exception patterns. Implicit exceptions in general are not decided.",
                 note="Narrowing asserts (is not None / isinstance) are assumed not to fire.", ref="§4 C10"),
-    "C11": dict(cat="other", tech="shared-state inventory (who-may-write), reset-before-use on compile(), input non-mutation, memo-clear typestate; call histories evaluated in one interpreter instance against a fresh one; no order-visible iteration over a set of strings or enum members (hash randomisation)",
+    "C11": dict(cat="other", tech="shared-state inventory (who-may-write), reset-before-use on compile(), input non-mutation, memo-clear typestate; call histories evaluated in one interpreter instance against a fresh one (other/same/failing inputs first, reused compiler object, the same routine-set objects decompiled repeatedly by both decompilers); no order-visible iteration over a set of strings or enum members (hash randomisation)",
                 text="Decides that the only run-time written shared cells are the audited ones, that class-level mutable defaults are shadowed per instance, that compile() resets its result attributes before anything can raise, and that decompilation writes to its input only through the audited indent cell.",
                 note="GC timing and igraph internals (address-based hashes of graph elements) are outside.", ref="§4 C11"),
     "C12": dict(cat="other", tech="confinement: shared-state inventory + memo keyed by a call-local graph object",
@@ -61,7 +61,7 @@ TABLE: dict[str, dict[str, str]] = {
     "C16": dict(cat="other", tech="grammar facts (skip channel, lexer order, alternative spellings) + position taint in the compiler + spelling tables; re-spellings of a base program compiled with the whole compiler interpreted: identical ops, routine table, marks; the serialized ATNs of the generated lexers/parsers compared rule by rule with the .g4 files (language equality of finite automata)",
                 text="Decides that whitespace/comments/line joining are skipped, keywords precede IDENTIFIER, both label and target spellings exist and map to the same values, and that token positions and skipped tokens flow only into source-map calls and messages. ANTLR's prediction on arbitrary token juxtapositions is not decided.",
                 note="ANTLR's adaptive prediction is trusted; that the generated tables are the grammar's is decided (C16-R5) and is a precondition of every check that reads a .g4 file.", ref="§4 C16"),
-    "C17": dict(cat="proof", tech="regex nullability, first-set totality and exponential-ambiguity (product automaton) analysis over the Pygments token table; the table run by a model of the RegexLexer loop, and through a driver override if the class has one, on sample texts",
+    "C17": dict(cat="proof", tech="regex nullability, first-set totality and exponential-ambiguity (product automaton) analysis over the Pygments token table; the table run by a model of the RegexLexer loop on sample texts, callback actions and a driver override of the class interpreted",
                 text="Proof over the token table: every rule regex is non-nullable (termination), every action is a plain token type (losslessness), and in every enterable state the rules that are certain to match from their first character cover the alphabet reachable there in accepted sources (no Error token, also not by an explicit Error action); no pattern has a loop that is ambiguous before a part that can fail (catastrophic backtracking); R6 lexes 36 sample texts with the table itself.",
                 note="Trusted: pygments RegexLexer.get_tokens_unprocessed main loop, re._parser, equivalence of words() with an alternation.", ref="§4 C17"),
     "C18": dict(cat="other", tech="visitor traversal rule against grammar reachability, span-expression shape rule, shared argument parser (sibling agreement); the listing visitor interpreted on sample sources against the grammar's own parse tree; printed marks compiled back",
